@@ -660,3 +660,27 @@ func VP_C06_ary_elements() {
 	}
 	vp.Cover("end")
 }
+
+// VarInt and VarLong as packet fields: every value, written and read back
+// through the field interfaces into a destination holding an arbitrary earlier
+// value, with the reference layout and exact counts (their encoding in depth is
+// C05's subject; here they are two more field types of the catalogue).
+func VP_C06_varnum() {
+	vp.SizeBound(16)
+	if vp.Bool() {
+		v := VarInt(vp.Int32())
+		ref, m := vpRefLEB(uint64(uint32(v)))
+		vpCheckWrite(v, ref[:m])
+		dst := VarInt(vp.Int32())
+		vpCheckRead(&dst, ref[:m])
+		vp.Assert(dst == v, "round trip value")
+	} else {
+		v := VarLong(vp.Int64())
+		ref, m := vpRefLEB(uint64(v))
+		vpCheckWrite(v, ref[:m])
+		dst := VarLong(vp.Int64())
+		vpCheckRead(&dst, ref[:m])
+		vp.Assert(dst == v, "round trip value")
+	}
+	vp.Cover("end")
+}
